@@ -502,6 +502,7 @@ func execScenario(c *runCtx, sc *scenario, eo *execOpts) ([]string, error) {
 		c.count("fault_" + faultKind)
 	}
 	shutCounts := make([]*int32, len(sc.bars))
+	selfs := make([]*atomic.Value, len(sc.bars))
 	ctx, cancel := context.WithCancel(context.Background())
 	defer cancel()
 	opts := []mpb.ContainerOption{mpb.WithOutput(out), mpb.WithWidth(sc.width), mpb.WithDebugOutput(&dbgWriter{t: t})}
@@ -718,9 +719,10 @@ func execScenario(c *runCtx, sc *scenario, eo *execOpts) ([]string, error) {
 			if bs.shut >= 0 {
 				cnt := new(int32)
 				shutCounts[i] = cnt
-				var sd decor.Decorator = &shutListener{WC: (&decor.WC{}).Init(), n: cnt}
+				selfs[i] = new(atomic.Value)
+				var sd decor.Decorator = &shutListener{WC: (&decor.WC{}).Init(), n: cnt, self: selfs[i]}
 				if i%2 == 1 { // a listener that is a moving-average decorator as well
-					sd = &shutEwmaListener{shutListener{WC: (&decor.WC{}).Init(), n: cnt}}
+					sd = &shutEwmaListener{shutListener{WC: (&decor.WC{}).Init(), n: cnt, self: selfs[i]}}
 				}
 				for j := 0; j < bs.shut; j++ {
 					sd = wrapOne((i+j)%5, sd)
@@ -762,6 +764,9 @@ func execScenario(c *runCtx, sc *scenario, eo *execOpts) ([]string, error) {
 			}
 			t.mu.Unlock()
 			bars[i] = b
+			if selfs[i] != nil && b != nil {
+				selfs[i].Store(b)
+			}
 			t.add(0, "RET_ADD b%d %d", i, b2i(err == nil))
 		case "incr", "settotal", "abort":
 			i := ai(1)
@@ -1002,11 +1007,23 @@ func (w *dbgWriter) Write(p []byte) (int, error) {
 
 type shutListener struct {
 	decor.WC
-	n *int32
+	n    *int32
+	self *atomic.Value // the listener's own bar (*mpb.Bar)
 }
 
 func (d *shutListener) Decor(decor.Statistics) (string, int) { return d.Format("") }
-func (d *shutListener) OnShutdown()                          { atomic.AddInt32(d.n, 1) }
+
+// OnShutdown reads its own bar, as a listener that reports a final value does: the getters never block, neither on a bar that
+// is shutting down nor afterwards.
+func (d *shutListener) OnShutdown() {
+	if d.self != nil {
+		if b, ok := d.self.Load().(*mpb.Bar); ok && b != nil {
+			_ = b.Current()
+			_ = b.Completed()
+		}
+	}
+	atomic.AddInt32(d.n, 1)
+}
 
 type shutEwmaListener struct{ shutListener }
 
